@@ -23,6 +23,15 @@ pub fn block_on<F: Future>(f: F) -> F::Output {
     RT.with(|rt| rt.block_on(f))
 }
 
+/// Like `block_on`, for use from inside another runtime's `block_on` (the future is driven on
+/// a scoped helper thread with its own runtime).
+pub fn block_in_place_on<F: Future + Send>(f: F) -> F::Output
+where
+    F::Output: Send,
+{
+    std::thread::scope(|s| s.spawn(|| block_on(f)).join().unwrap())
+}
+
 pub const PEER: [u8; 32] = [9u8; 32];
 
 /// Scratch directory for file-backed stores, removed on drop.
